@@ -1,0 +1,7 @@
+//go:build !verif
+
+package badger
+
+// vevent marks a persistence event (see verif_on.go). Without the `verif` build tag it is
+// an empty function that the compiler inlines away.
+func vevent(kind int, path string, a, b int64) {}
